@@ -14,6 +14,8 @@ import (
 func init() {
 	f := "internal/lsp/server_text_sync.go"
 	register(&Property{ID: "C21", Run: runC21, Mutants: []Mutant{
+		{Name: "an empty change list empties the document", File: "internal/lsp/server_text_sync.go", Old: "\t\treturn nil, fmt.Errorf(\"%w: no content changes provided\", jsonrpc2.ErrInternal)", New: "\t\treturn nil, nil", Expect: "change-result-is-text"},
+		{Name: "didOpen keeps the text of an earlier session", File: "internal/lsp/server_text_sync.go", Old: "\tp.fileMap[params.TextDocument.URI.Path()] = params.TextDocument.Text\n", New: "\tif _, ok := p.fileMap[params.TextDocument.URI.Path()]; !ok {\n\t\tp.fileMap[params.TextDocument.URI.Path()] = params.TextDocument.Text\n\t}\n", Expect: "open-replaces-text"},
 		{Name: "a valid U+FFFD is taken for invalid UTF-8", File: "internal/lsp/protocol/mapper.go", Old: "if sz == 1 && r == utf8.RuneError {", New: "if r == utf8.RuneError {", Expect: "invalid-utf8-test"},
 		{Name: "store happens before the error check", File: f, Old: "\ttext, err := p.changedText(params.TextDocument.URI, params.ContentChanges)\n\tif err != nil {\n\t\treturn err\n\t}\n", New: "\ttext, err := p.changedText(params.TextDocument.URI, params.ContentChanges)\n\tp.fileMap[params.TextDocument.URI.Path()] = string(text)\n\tif err != nil {\n\t\treturn err\n\t}\n", Expect: "error-implies-no-store"},
 		{Name: "successful change is not stored", File: f, Old: "\tp.fileMap[params.TextDocument.URI.Path()] = string(text)\n\treturn nil\n}\nfunc (s *LSPServer) changedText", New: "\treturn nil\n}\nfunc (s *LSPServer) changedText", Expect: "success-implies-store"},
@@ -53,6 +55,7 @@ func runC21(c *Ctx) {
 	if pk == nil {
 		return
 	}
+	c21SyncExtra(c, p, pk)
 	{
 		var lspPkgs []*packages.Package
 		for rel, q := range p.All {
